@@ -79,13 +79,30 @@ class Rec(object):
         self.disc['B'] += 1
 
 
+class Hello(object):
+    """on-connected callback of the dialing side: sends the first message of the plan while the
+    connection object is still in its CONNECTING state (like TCPTransport sends its address)."""
+
+    def __init__(self, w, plan):
+        self.w = w
+        self.plan = plan
+
+    def __call__(self):
+        w = self.w
+        m = MESSAGES[self.plan[0]]
+        w.sent.append(m)
+        w.next = 1
+        w.A.send(m)
+
+
 class W(object):
     """One world: net, poller, the two connections, recorder, progress through the plan."""
     pass
 
 
 class FramingModel(object):
-    def __init__(self, plan, corrupt_at=None, corrupt_kind=None, sndcap=16, recvsize=8):
+    def __init__(self, plan, corrupt_at=None, corrupt_kind=None, sndcap=16, recvsize=8, connect=False):
+        self.connect = connect            # A dials (non-blocking connect) and sends plan[0] from its on-connected callback
         seams.install()
         simsock.install()
         self.plan = plan                  # string over MESSAGES keys
@@ -102,15 +119,27 @@ class FramingModel(object):
         seams.CLOCK[0] = 1000000.0
         w.poller = simsock.SimPoller()
         w.rec = Rec()
-        a, b = w.net.pair()
-        w.fa, w.fb = a.fd, b.fd
-        w.A = TcpConnection(w.poller, onDisconnected=w.rec.on_disc_a, socket=a, timeout=1e9,
-                            sendBufferSize=self.sndcap, recvBufferSize=self.recvsize)
-        w.B = TcpConnection(w.poller, onMessageReceived=w.rec.on_msg, onDisconnected=w.rec.on_disc_b, socket=b,
-                            timeout=1e9, sendBufferSize=self.sndcap, recvBufferSize=self.recvsize)
         w.next = 0
+        w.sent = []
+        if self.connect:
+            w.A = TcpConnection(w.poller, onDisconnected=w.rec.on_disc_a, timeout=1e9,
+                                sendBufferSize=self.sndcap, recvBufferSize=self.recvsize)
+            w.A.setOnConnectedCallback(Hello(w, self.plan))
+            w.A.connect('10.0.0.2', 2)
+            a = w.net.sockets[w.A.fileno()]
+            b = w.net.socket()
+            w.fa, w.fb = a.fd, b.fd
+            w.B = None
+            w.established = False
+        else:
+            a, b = w.net.pair()
+            w.fa, w.fb = a.fd, b.fd
+            w.A = TcpConnection(w.poller, onDisconnected=w.rec.on_disc_a, socket=a, timeout=1e9,
+                                sendBufferSize=self.sndcap, recvBufferSize=self.recvsize)
+            w.B = TcpConnection(w.poller, onMessageReceived=w.rec.on_msg, onDisconnected=w.rec.on_disc_b, socket=b,
+                                timeout=1e9, sendBufferSize=self.sndcap, recvBufferSize=self.recvsize)
+            w.established = True
         w.corrupt_idx = None
-        w.sent = []         # messages handed over
         w.exc = None
         return w
 
@@ -120,16 +149,18 @@ class FramingModel(object):
                      if isinstance(v, (bytes, bytearray, int, float, str, type(None))) and not k.endswith('lastReadTime'))
 
     def key(self, w):
-        return (self._fields(w.A), self._fields(w.B), w.net.key(), w.poller.key(), w.next, len(w.rec.delivered),
+        return (self._fields(w.A), self._fields(w.B) if w.B is not None else None, w.established, w.net.key(), w.poller.key(), w.next, len(w.rec.delivered),
                 tuple(sorted(w.rec.disc.items())))
 
     def outcome(self, w):
-        return (len(w.rec.delivered), w.B.state, w.A.state)
+        return (len(w.rec.delivered), w.B.state if w.B is not None else None, w.A.state)
 
     def events(self, w):
         evs = []
         sa, sb = w.net.sockets[w.fa], w.net.sockets[w.fb]
-        if w.next < len(self.plan) and w.A.state == 2:
+        if not w.established:
+            return [('est',)]
+        if w.next < len(self.plan) and w.A.state == 2 and (w.next > 0 or not self.connect):
             if self.corrupt_at == w.next:
                 if w.A.getSendBufferSize() == 0:
                     evs.append(('inject',))
@@ -161,7 +192,17 @@ class FramingModel(object):
         simsock.NET[0] = w.net
         seams.CLOCK[0] = 1000000.0
         try:
-            if ev[0] == 'send':
+            if ev[0] == 'est':
+                from pysyncobj.tcp_connection import TcpConnection
+                a, b = w.net.sockets[w.fa], w.net.sockets[w.fb]
+                a.state = b.state = 'connected'
+                a.peer, b.peer = b.fd, a.fd
+                if a.fd in w.net.pending_connects:
+                    w.net.pending_connects.remove(a.fd)
+                w.B = TcpConnection(w.poller, onMessageReceived=w.rec.on_msg, onDisconnected=w.rec.on_disc_b, socket=b,
+                                    timeout=1e9, sendBufferSize=self.sndcap, recvBufferSize=self.recvsize)
+                w.established = True
+            elif ev[0] == 'send':
                 m = MESSAGES[self.plan[w.next]]
                 w.sent.append(m)
                 w.next += 1
@@ -200,7 +241,7 @@ class FramingModel(object):
             if w.corrupt_idx is None:
                 if w.next == len(self.plan) and d != w.sent:
                     return 'C13 quiescent with all bytes delivered but messages %r of %r arrived' % (d, w.sent)
-                if w.B.state != 2 or w.A.state != 2:
+                if w.B is None or w.B.state != 2 or w.A.state != 2:
                     return 'C13 connection dropped without any corruption (A=%r B=%r)' % (w.A.state, w.B.state)
             else:
                 if self.kind in DEFINITELY_INVALID and (w.B.state != 0 or w.rec.disc['B'] != 1):
@@ -219,7 +260,7 @@ def job(name, plans, corrupt, kinds=None):
         if corrupt:
             variants = [(i, k) for i in range(len(plan)) for k in (kinds or CORRUPTIONS)]
         for at, kind in variants:
-            m = FramingModel(plan, at, kind)
+            m = FramingModel(plan[2:], at, kind, connect=True) if plan.startswith('c:') else FramingModel(plan, at, kind)
             r = core.bfs(m, name='%s/%s/%s@%s' % (name, plan, kind, at), known=known, prop=PROP)
             total.states += r.states
             total.transitions += r.transitions
@@ -249,7 +290,7 @@ def plans_of(maxlen, alphabet='esmL'):
 
 def replay_trace(jobname, trace):
     head = trace[0]
-    m = FramingModel(head[1], head[2], head[3])
+    m = FramingModel(head[1][2:], head[2], head[3], connect=True) if head[1].startswith('c:') else FramingModel(head[1], head[2], head[3])
     msg, _ = core.replay(m, [tuple(e) for e in trace[1:]])
     return msg
 
@@ -258,16 +299,16 @@ def main(tier, seed, job_filter=None):
     rep = core.Report(PROP, tier, seed, TECH, ASSUME)
     q = tier == 'quick'
     if q:
-        clean = ['e', 's', 'm', 'es', 'se']
+        clean = ['e', 's', 'm', 'es', 'se', 'c:s', 'c:m', 'c:se']
         cplans = ['s', 'es']
     else:
-        clean = plans_of(2, 'esm') + ['L', 'eL', 'Ls'] + ['ese', 'sms', 'ems']
+        clean = plans_of(2, 'esm') + ['L', 'eL', 'Ls'] + ['ese', 'sms', 'ems'] + ['c:s', 'c:m', 'c:L', 'c:se', 'c:ms']
         cplans = plans_of(2, 'esm') + ['m', 's', 'e']
     jobs = [(job, dict(name='framing:clean:%s' % p, plans=[p], corrupt=False)) for p in clean]
     for p in cplans:
         for k in CORRUPTIONS:
             jobs.append((job, dict(name='framing:corrupt:%s:%s' % (p, k), plans=[p], corrupt=True, kinds=[k])))
-    jobs.sort(key=lambda j: -len(j[1]['plans'][0]))
+    jobs.sort(key=lambda j: -len(j[1]['plans'][0].replace('c:', '')))
     if job_filter:
         jobs = [j for j in jobs if job_filter in j[1]['name']]
     rep.replay_fn = replay_trace
